@@ -8,7 +8,9 @@ from . import model as M
 PROPERTY = "C01"
 LEVEL = "exploration"
 HARNESS = "hgdrive"
-RULE = ("random DAG programs (layered, diamond-rich, fan-in/out, nested/inlined sub-graphs to depth 3, structural TSL inputs, "
+RULE = ("[plus: reference selections (if_then_else) whose readers depend on selector and both targets; collection / bundle path "
+        "programs, keyed maps, switches and reductions checked by the compiled-edge and single-forward-scan oracles] "
+        "random DAG programs (layered, diamond-rich, fan-in/out, nested/inlined sub-graphs to depth 3, structural TSL inputs, "
         "explicit rank dependencies, consumer-before-producer wiring through delayed bindings, feedback loops) x random "
         "histories; plus programs whose dependency cycle is closed through a delayed binding or a rank-dependency pair "
         "(must be rejected) next to the same program cut by a feedback (must build). Non-trivial: >= 5 checked "
@@ -17,7 +19,8 @@ ASSUMPTIONS = ["LifecycleObserver events are emitted in real execution order (on
                "uid -> (graph instance, node index) is taken from each node's own start log",
                "g++-12 -O1 build of the working tree with harness-side shims"]
 FLOORS = {"deps_checked": {"quick": 3000, "thorough": 40000}, "cyclic_rejected": {"quick": 40, "thorough": 400},
-          "node_evals_ordered": {"quick": 20000, "thorough": 200000}, "child_brackets": {"quick": 500, "thorough": 5000}}
+          "node_evals_ordered": {"quick": 20000, "thorough": 200000}, "child_brackets": {"quick": 500, "thorough": 5000},
+          "deps_through_reference": {"quick": 100, "thorough": 1500}, "structural_case_node_evals": {"quick": 3000, "thorough": 40000}}
 BATCH = 25
 
 
@@ -95,8 +98,22 @@ def generate(rng, tier, seed):
     n = 400 if tier == "quick" else 6000
     cases = []
     for k in range(n):
-        c = gen_case(rng, f"c01_{seed}_{k}", max_depth=3 if rng.random() < 0.3 else 2)
+        c = gen_case(rng, f"c01_{seed}_{k}", max_depth=3 if rng.random() < 0.3 else 2, allow_ite=(k % 4 == 3))
         add_rank_and_delayed(rng, c)
+        cases.append(c)
+    # dependencies through collection / bundle paths and through dynamic children: collection sources, copies and mirrors over
+    # the ten shapes, keyed maps, switches, reductions, references to sets / dictionaries (compiled-edge and scan-order oracles)
+    from .gen_coll import gen_coll_case
+    from .c10 import gen_case10
+    from .c11 import gen_case11
+    from .c12 import gen_case12
+    from .c13 import gen_coll_ref
+    for k in range(n // 4):
+        nm = f"c01_{seed}_s{k}"
+        r = k % 5
+        c = (gen_coll_case(rng, nm, probes=True, copies=2) if r == 0 else gen_case10(rng, nm, k) if r == 1 else
+             gen_case11(rng, nm, k) if r == 2 else gen_case12(rng, nm, k) if r == 3 else gen_coll_ref(rng, nm))
+        c.meta["structural"] = 1
         cases.append(c)
     kinds = ["delayed", "rank", "rank2", "control"]
     for k in range(n // 5):
@@ -208,6 +225,10 @@ def check(case, tr):
         return res
     parents, where = graph_tables(run)
     check_dynamic(run, res, parents)
+    if case.meta.get("structural"):
+        res.counters["structural_case_node_evals"] = res.counters.get("node_evals_ordered", 0)
+        res.nontrivial = res.counters.get("node_evals_ordered", 0) >= 20
+        return res
     # program-level dependencies: index(producer) < index(consumer) in their common graph
     flat = M.flatten(case)
     deps = 0
@@ -218,8 +239,16 @@ def check(case, tr):
         if i.uid is None or i.uid not in where:
             continue
         cg, ci = where[i.uid][0]
-        for r in i.ins:
-            p = r.target
+        prods, stack = [], [r.target for r in i.ins]
+        while stack:
+            p = stack.pop()
+            if p.op == "ite":
+                # reading through a reference: the selector and every possible target are producers of the reader
+                res.counters["deps_through_reference"] = res.counters.get("deps_through_reference", 0) + 1
+                stack += [r.target for r in p.ins]
+            else:
+                prods.append(p)
+        for p in prods:
             if p.uid is None or p.op in ("fb", "const") or p.uid not in where:
                 continue
             pg, pi = where[p.uid][0]
@@ -244,7 +273,7 @@ def check(case, tr):
     # explicit rank dependencies
     names = {}
     for st in case.graphs["main"]:
-        if st.dst and st.uid() is not None:
+        if st.dst and st.uid() is not None and st.op != "ite":      # an ite statement's uid names its selector node
             names[st.dst] = st.uid()
     for later, earlier in case.meta.get("ranks", []):
         ul, ue_ = names.get(later), names.get(earlier)
